@@ -26,7 +26,7 @@ Definition tags_of (c : cfg) : list string :=
       ++ (if (o_ret o =? 0) then ["zero"] else [])
       ++ (if c_nb c then ["nonblocking"] else [])
   | RAborted => ["model_abort"]
-  | _ => ["model_stuck"]
+  | _ => match c_shape c with SConnect => ["connect_eintr_spins"] | _ => ["model_stuck"] end
   end.
 
 Definition judge_with (ok : cfg -> result -> bool) (c : scase) : verdict :=
@@ -34,4 +34,4 @@ Definition judge_with (ok : cfg -> result -> bool) (c : scase) : verdict :=
   {| v_corr := result_eqb (run_obs cf) impl;
      v_prop := ok cf impl;
      v_tags := tags_of cf;
-     v_note := "" |}.
+     v_note := if wf cf then "" else if wf_input cf then "known-defect-input" else "not-wf" |}.
